@@ -192,6 +192,31 @@ def date_time_adjacency():
                     yield {'culture': 'en-us', 'q': '%s%d %s %d%s' % (pre, (d * 7) % 28 + 1, name, d, mk), 'src': 'adjacency', 'only': ['datetime']}
 
 
+def zh_adjacency():
+    """Deterministic part (zh-cn writes without blanks): a quantity directly followed by a second quantity whose number is 半
+    ('3公斤半公里'), and a date range directly followed by a time of day ('从1月1日到1月5日下午3点')."""
+    from checks import c05
+    units = {}
+    for c, t, kind, f, unit, epi in c05.table_entries():
+        if c == 'zh-cn' and kind == 'suffix' and not f.isascii() and epi == 0:
+            units.setdefault(t, [])
+            if len(units[t]) < 8 and f not in units[t]:
+                units[t].append(f)
+    for t, us in sorted(units.items()):
+        for u1 in us:
+            yield {'culture': 'zh-cn', 'q': '3%s半' % u1, 'src': 'zh-adjacency', 'only': [t]}
+            for u2 in us:
+                yield {'culture': 'zh-cn', 'q': '3%s半%s' % (u1, u2), 'src': 'zh-adjacency', 'only': [t]}
+                yield {'culture': 'zh-cn', 'q': '三%s半%s' % (u1, u2), 'src': 'zh-adjacency', 'only': [t]}
+    ranges = ['从1月1日到1月5日', '1月1日到1月5日', '从2018年1月1日到2018年1月5日', '下周一到周五', '从明天到后天', '1月5日']
+    times = ['下午3点', '晚上8点半', '上午10点', '3点', '下午三点十五分', '中午']
+    for r in ranges:
+        for tm in times:
+            for glue in ('', '的'):
+                for pre in ('', '我们', '我们会议安排在'):
+                    yield {'culture': 'zh-cn', 'q': pre + r + glue + tm + ('放假' if pre else ''), 'src': 'zh-adjacency', 'only': ['datetime']}
+
+
 def run_chain(case):
     culture, q = case['culture'], case['q']
     results = allmodels.run_all(culture, q, only=case['only'])
@@ -211,6 +236,7 @@ def parts(tier, seed):
     ps = [enum_part('corpus-all-models', c01.corpus_cases(0.25 if q else 1, seed, salt=13), run_query, exhaustive=not q, weight=3)]
     ps.append(enum_part('unit-chains', unit_chains(12 if q else 60), run_chain, exhaustive=True))
     ps.append(enum_part('date-time-adjacency', date_time_adjacency, run_chain, exhaustive=True))
+    ps.append(enum_part('zh-adjacency', zh_adjacency, run_chain, exhaustive=True))
     ps.append(hyp_part('phone-digit-groups', phone_group_cases, run_chain, 3000 if q else 60000, min_shard=300))
     for c in allmodels.CULTURES:
         n1 = (800 if c == 'en-us' else 200) if q else (10000 if c == 'en-us' else 2500)
